@@ -21,6 +21,7 @@ class Abstain(Exception):
 
 _SMT_CACHE = {}
 STATS = {"empty_domain": 0}
+INT_DOMAIN_ALL = False
 
 
 _ESC = {'"': '"'}  # the only escape the ISLa specification defines inside string literals
@@ -150,7 +151,10 @@ def ev(f, root, env, paths):
         body = isla_to_smt2(sexpr).replace(f"(str.to_int {nvar})", "nI")
         if nvar in body.replace("nI", ""):
             raise Abstain("numeric variable used outside str.to.int")
-        term = (f"(exists ((nI Int)) (and (>= nI 0) {body}))" if q == "exists" else f"(forall ((nI Int)) (=> (>= nI 0) {body}))")
+        if INT_DOMAIN_ALL:     # emulation of ISLa's current reading (classification only): the variable ranges over all integers
+            term = f"(exists ((nI Int)) {body})" if q == "exists" else f"(forall ((nI Int)) {body})"
+        else:
+            term = (f"(exists ((nI Int)) (and (>= nI 0) {body}))" if q == "exists" else f"(forall ((nI Int)) (=> (>= nI 0) {body}))")
         r = R4.truth(term)
         if r is None:
             raise Abstain("z3 undecided")
